@@ -301,7 +301,11 @@ func runCopy(cfg config) {
 					if (si+di+zi)%2 == 0 {
 						dstPerm = 0o600
 					}
-					smode := []int{0o644, 0o600, 0o755, 0o444}[(si+2*di+zi)%4]
+					smodes := []int{0o644, 0o666, 0o600, 0o777, 0o755, 0o664, 0o444, 0o602, 0o070}
+					smode := smodes[(si*3+di*5+zi)%len(smodes)]
+					if !hashing {
+						smode = smodes[(si*3+di*5+zi+4)%len(smodes)]
+					}
 					base := copyCase{kind: "copy", srcfs: sf, dstfs: df, hashing: hashing, size: size, cseed: si*7 + di, smode: smode, dstPerm: dstPerm}
 					obs := record(base)
 					for _, f := range planFromTrace(obs) {
